@@ -13,6 +13,13 @@ Definition model_term (e : nat -> nat -> R) (r : vkey -> R) (t : option vkey) (i
   let key := canon4 (fst ij) (snd ij) (fst kl) (snd kl) in
   if is_target t key then 0 else r key * e (fst ij) (snd ij) * e (fst kl) (snd kl) / 2.
 
+(** the key the code builds for a tuple - c_(i+1, j+1, k+1, l+1) through the REGENERATED voigt model - is the
+    static model's canonical key, on all 81 tuples *)
+Lemma gen_energy_key_canon4 :
+  forallb (fun t : nat * nat * nat * nat => let '(i, j, k, l) := t in
+             vkey_eqb (gen_energy_key i j k l) (canon4 i j k l)) idx81 = true.
+Proof. vm_compute. reflexivity. Qed.
+
 Lemma tie_energy (isz : R -> bool) (e : nat -> nat -> R) (r : vkey -> R) (t : option vkey) :
   gen_energy isz e r t = energy (OF:=ROps) isz e r t.
 Proof.
@@ -22,8 +29,10 @@ Proof.
              if p (i, j) && p (k, l) then model_term e r t (i, j) (k, l) else 0)).
   - unfold idx81. rewrite (sum_guarded_prod p (model_term e r t)). unfold energy, nz. fold p.
     rops. rewrite Rplus_0_l. reflexivity.
-  - intros acc [[[i j] k] l] Hin. apply In_idx81 in Hin. destruct Hin as (Hi & Hj & Hk & Hl).
-    subst p. cbn beta iota. cbn [fst snd]. rewrite gen_c4_canon4 by assumption.
+  - intros acc [[[i j] k] l] Hin.
+    pose proof (proj1 (forallb_forall _ _) gen_energy_key_canon4 _ Hin) as Hkey.
+    cbn beta iota in Hkey. apply vkey_eqb_eq in Hkey.
+    subst p. cbn beta iota. cbn [fst snd]. rewrite Hkey.
     unfold model_term, key_is, is_target. cbn [fst snd].
     destruct (negb (isz (e i j)) && negb (isz (e k l))); [|rops; ring].
     destruct t as [t|]; [destruct (vkey_eqb (canon4 i j k l) t)|]; cbv zeta; rops;
@@ -38,4 +47,4 @@ Corollary tie_energy_rotated (isz : R -> bool) (lam : nat -> R) (crot : vkey -> 
   gen_energy isz (diag3 lam) crot None = energy (OF:=ROps) isz (diag3 lam) crot None.
 Proof. apply tie_energy. Qed.
 
-Definition tie_group_energy := (tie_energy, tie_energy_original, tie_energy_rotated).
+Definition tie_group_energy := (gen_energy_key_canon4, tie_energy, tie_energy_original, tie_energy_rotated).
